@@ -109,11 +109,11 @@ CONTRACTS = {
         "note": "getTime (FPGA timestamp or time.monotonic): monotone, 0 <= t < 2**32-1 seconds",
     },
     "sm.duration_of": {
-        "kind": "external", "params": {"obj": f"Ref:{SM}", "name": "Str", "default": "Real"}, "returns": "Real",
+        "kind": "external", "params": {"obj": f"Ref:{SM}", "name": "Str", "default": "Opt[Real]"}, "returns": "Opt[Real]",
         "modifies": ["obj.g_dur"],
-        "ensures": {"timed states read their duration tunable, a non-negative number": "implies(has_dur(name), result >= 0)",
-                    "other states get the default": "implies(not has_dur(name), result == default)",
-                    "ghost: last duration read": "obj.g_dur == result"},
+        "ensures": {"timed states read their duration tunable, a non-negative number": "implies(has_dur(name), result is not None and unwrap(result) >= 0)",
+                    "other states get the default (whatever the caller passes, None included)": "implies(not has_dur(name), result == default)",
+                    "ghost: last duration read": "implies(result is not None, obj.g_dur == unwrap(result))"},
         "note": "getattr(self, '<state>_duration', 0xFFFFFFFF): the value of the duration tunable at entry (arbitrary >= 0; see C09 for the NT key)",
     },
     f"{SM}.current_state.__set__": {
